@@ -223,7 +223,7 @@ def install_table(events, toks, out_path, fault, sink=None):
         k = counter["k"]
         if fault and fault[0] == "boundary" and fault[1] == k:
             if fault[2] == "exit":
-                emit({"kind": "End", "outcome": "dead", "injected": True, "disk": snap, "mem": dict(ABSENT), "k": k})
+                emit({"kind": "End", "outcome": "dead", "injected": True, "disk": snap, "mem": dict(ABSENT), "k": k, "inWriter": False})
                 os._exit(9)
             emit_pending["fault_at"] = k
             raise InjectedFault(f"boundary {k}")
@@ -240,6 +240,16 @@ def install_table(events, toks, out_path, fault, sink=None):
             dict.__setitem__(self, key, value)
 
     class VTable(Table):
+        def write(self, *a, **kw):
+            # fault ("write", k): the k-th rewrite of the file fails while the table is converted, i.e. before astropy has touched the
+            # old file (Table.write converts first and removes the old file afterwards): the file must stay the last complete prefix
+            if id(self) == primary.get("table"):
+                counter["writes"] = counter.get("writes", 0) + 1
+                if fault and fault[0] == "write" and fault[1] == counter["writes"]:
+                    counter["in_writer"] = True
+                    raise InjectedFault(f"write {fault[1]}")
+            return Table.__dict__["write"].__get__(self, type(self))(*a, **kw)      # astropy's write is a descriptor, not a function
+
         def add_columns(self, cols, indexes=None, names=None, **kw):
             cols = list(cols)
             nm = list(names) if names is not None else [getattr(c, "name", "?") for c in cols]
@@ -405,7 +415,7 @@ def run_compute(spec, seed, scheduler="sync", write_stages=True, fault=None, out
         undo()
         undo_stage()
     injected = isinstance(exc, InjectedFault)
-    end = {"kind": "End", "outcome": outcome, "injected": bool(injected), "disk": snapshot_file(out, toks),
+    end = {"kind": "End", "outcome": outcome, "injected": bool(injected), "inWriter": bool(counter.get("in_writer", False)), "disk": snapshot_file(out, toks),
            "mem": snapshot_table(sim, toks) if sim is not None else dict(ABSENT), "k": counter["k"] + 1}
     events.append(end)
     meta = {"spec": spec, "seed": seed, "scheduler": scheduler, "write_stages": write_stages, "fault": fault,
